@@ -120,6 +120,15 @@ def main(tier, seed, replay=None):
         # in-place contract (correspondence-only)
         if not np.array_equal(np.isnan(X), np.isnan(X0)) or not np.allclose(np.nan_to_num(X), np.nan_to_num(X0)):
             rep.violation(dict(kind="caller-array-modified-without-inplace", circuit=tab.brief()), True)
+        # batch composition must not matter: rows completed one at a time agree with the batch (ties aside: compared in value)
+        from deeprob.spn.algorithms.inference import log_likelihood as _ll
+        for j in rs.choice(len(X), size=min(len(X), 4), replace=False):
+            y1 = mpe(root, X[j:j + 1])[0]
+            if not np.array_equal(y1, Y[j], equal_nan=True):
+                a, b = _ll(root, y1[None, :])[0], _ll(root, Y[j][None, :])[0]
+                if not np.isclose(float(a), float(b), rtol=1e-4, atol=1e-6):
+                    rep.violation(dict(kind="completion-of-a-row-depends-on-the-batch-it-is-evaluated-in", circuit=tab.brief(),
+                                       row=sorted(rows[j].items()), in_batch=Y[j].tolist(), alone=y1.tolist()), True)
         X2 = X.copy(); Y2 = mpe(root, X2, inplace=True)
         if Y2 is not X2 or not np.array_equal(Y2, Y, equal_nan=True):
             rep.violation(dict(kind="inplace-contract", circuit=tab.brief()), True)
